@@ -14,7 +14,7 @@ import time
 import traceback
 from typing import Any, Dict, List
 
-from .core import ROOT, Ctx, HarnessError, Report, Violation, jhash
+from .core import ROOT, Ctx, HarnessError, Report, Violation, jhash, scramble_seed
 from . import findings as F
 
 
@@ -37,7 +37,7 @@ def _write_evidence(ctx: Ctx, mod: Any, rep: Report, n_viol: int, known_excluded
     ev = {
         "property_id": ctx.prop,
         "tier": ctx.tier,
-        "seed": int(ctx.seed),
+        "seed": int(getattr(ctx, "seed_raw", ctx.seed)),
         "level": getattr(mod, "LEVEL", "exploration"),
         "coverage": coverage,
         "assumptions": rep.assumptions,
@@ -75,7 +75,10 @@ def main(argv: List[str]) -> int:
         seed = int(os.environ.get("VERIF_SEED", "1") or "1")
     except ValueError:
         seed = 1
-    ctx = Ctx(prop=prop, tier=args.tier, seed=seed, procs=args.procs)
+    # VERIF_SEED is scrambled once so that small seeds give unrelated streams (mix32 XORs its first inputs, so
+    # raw (seed, index) pairs with equal XOR would collide); evidence reports the original value.
+    ctx = Ctx(prop=prop, tier=args.tier, seed=scramble_seed(seed), procs=args.procs)
+    ctx.seed_raw = seed
 
     try:
         mod = importlib.import_module(f"vp_harness.props.{prop.lower()}")
@@ -189,7 +192,7 @@ def main(argv: List[str]) -> int:
     ev_path = _write_evidence(ctx, mod, rep, len(unknown), known_excluded)
     for line in rep.inconclusive:
         print(f"INCONCLUSIVE: {line}")
-    print(f"{prop} tier={ctx.tier} seed={ctx.seed}: evaluations={rep.evaluations} "
+    print(f"{prop} tier={ctx.tier} seed={getattr(ctx, 'seed_raw', ctx.seed)}: evaluations={rep.evaluations} "
           f"distinct_nontrivial={len(rep.nontrivial)} unknown_violation_classes={len(unknown)} "
           f"known_classes={len(reported)} wall={time.time() - ctx.t0:.1f}s evidence={os.path.relpath(ev_path, ROOT)}")
     for line in out_lines:
